@@ -39,6 +39,14 @@ def taylor_replay(case):
                 if not (np.array_equal(c1, c2) and i1.failed == i2.failed and i1.degenerate == i2.degenerate):
                     bad.append(dict(what='reused Taylor object differs from a fresh one', z0=str(z0), failed=(i1.failed, i2.failed), degenerate=(i1.degenerate, i2.degenerate)))
                     break
+        # `failed` is set exactly when the iteration cap was reached
+        for f, n in ((np.exp, 6), (lambda z: 1.0 / (2.0 - z), 8), (np.exp, 20)):
+            need = fb.taylor(f, 0.0, n=n, max_iter=200, min_iter=15, full_output=True)[1].iterations
+            for cap in sorted({max(need - 3, 1), need, need + 3}):
+                info = fb.taylor(f, 0.0, n=n, max_iter=cap, min_iter=15, full_output=True)[1]      # same min_iter: the search itself is the same
+                want = cap <= need
+                if bool(info.failed) != want:
+                    bad.append(dict(what='failed flag', n=n, iterations_needed=int(need), max_iter=cap, failed=bool(info.failed), expected=want))
         # documented defaults
         for mi in (4, 30, 31, 60, 200):
             t = fb.Taylor(np.exp, max_iter=mi)
